@@ -209,13 +209,14 @@ func (interp *Interpreter) pkgDir(goPath string, root, importPath string) (strin
 		return dir, rPath, nil // found!
 	}
 
-	dir = filepath.Join(goPath, "src", effectivePkg(root, importPath))
-
-	if isDir(interp.opt.filesystem, dir) {
-		return dir, root, nil // found!
-	}
-
 	if root == "" {
+		// No vendor directory holds the package: an import path is relative to GOPATH/src only.
+		dir = filepath.Join(goPath, "src", importPath)
+
+		if isDir(interp.opt.filesystem, dir) {
+			return dir, root, nil // found!
+		}
+
 		if interp.context.GOPATH == "" {
 			return "", "", fmt.Errorf("unable to find source related to: %q. Either the GOPATH environment variable, or the Interpreter.Options.GoPath needs to be set", importPath)
 		}
